@@ -556,6 +556,21 @@ class Interp:
         if not hasattr(self, "applied"): self.applied = set()
         self.applied.add(c.target)                       # modularity audit: every contract used at a call site must itself be proved in the same property
         env, bound = self.bind_args(f, args, kw)
+        if c.requires is not None and not os.environ.get("PYVC_NO_PRE_FALLBACK"):
+            # A contract's `requires` is MY summary of what the callee's current body needs.  If it cannot be established at this call site the modular
+            # shortcut simply does not apply here: the callee's REAL body is executed instead (a benign refactoring may have made the precondition
+            # unnecessary; a real defect shows in the caller's own postconditions, now computed from the real body).  Never a violation by itself.
+            from .contract import Ctx, Q
+            try:
+                q = Q("goal"); pre = c.requires(Ctx(bound), q)
+                v = smt.prove(list(self.pc) + q.hyps, toz3(pre), 6000)
+                ok = v.status == "proved"
+            except (Unsupported, PyRaise): raise
+            except Exception: ok = True           # the contract's own evaluation failed: leave it to apply(), which reports it
+            if not ok:
+                self.derived_used.add(f"call-site precondition of {c.target.split('.')[-1]} not established: body inlined")
+                self.events.append(f"precondition-not-established: {c.target} at {getattr(self.stack[-1].func, 'qualname', '?') if self.stack else '?'}: real body inlined")
+                return self.call_body(f, args, kw)
         return c.apply(self, f, bound)
     def instantiate(self, cls, args, kw):
         if cls.is_dataclass:
